@@ -9,7 +9,8 @@
   OBLIGATION c11_overlap_poly
   OBLIGATION c11_poly_partial
   OBLIGATION c11_pinned_upper
-  OPEN c11_poly_norepeat
+  OBLIGATION c11_poly_norepeat_anynames
+  OBLIGATION c11_poly_norepeat
 -/
 import AGV.Lemmas.Cost
 
@@ -115,14 +116,56 @@ example : FlatFragments
   subst hf
   rfl
 
-/-- OPEN: the sharper statement of the plan — a document in which no fragment name is spread
-    twice (in the whole text) costs the pinned walkers at most `passes * size` visits.  It needs
-    an occurrence-counting argument over the spread forest that was not completed. -/
-def c11_poly_norepeat : Prop :=
+/-- The sharper statement of the plan, for the PINNED (re-walking) walkers: in a document in which
+    no fragment name is spread twice — counting every spread in every operation and every
+    fragment definition — each fragment body is walked at most once per pass, at every nesting
+    depth, so the pinned checks perform at most `passes * size` selection visits (the bound of the
+    repaired walkers, `c11_poly`).  Fragment definitions may be nested arbitrarily, may be unused,
+    may even share a name (the first one wins, as in `Doc.frag?`). -/
+theorem c11_poly_norepeat_anynames (c : Config) (d : Doc)
+    (h : ((d.ops.map fun o => spreadNames o.sels) ++ (d.frags.map fun f => spreadNames f.sels)).flatten.Nodup) :
+    visits pinned c d ≤ passes c.strict * size d := by
+  have hI := inlinePassPinned_norepeat c d h
+  have hD := depthPinned_norepeat c d h
+  have hN := normalPass_le_size c d
+  cases hmd : c.maxDirs with
+  | none =>
+    unfold visits run
+    cases hs : c.strict <;>
+      simp only [passes, inlinePass, pinned, Counters.visits, modes_strict, modes_fast] <;>
+      (repeat' split) <;> simp_all <;> omega
+  | some lim =>
+    have hM := dirsPinned_norepeat c lim d h
+    unfold visits run
+    cases hs : c.strict <;>
+      simp only [passes, inlinePass, pinned, Counters.visits, modes_strict, modes_fast] <;>
+      (repeat' split) <;> simp_all <;> omega
+
+/-- … in the form announced in the plan (fragment names distinct). -/
+theorem c11_poly_norepeat :
   ∀ (c : Config) (d : Doc),
     (d.frags.map (·.name)).Nodup →
     ((d.ops.map fun o => spreadNames o.sels) ++ (d.frags.map fun f => spreadNames f.sels)).flatten.Nodup →
-    visits pinned c d ≤ passes c.strict * size d
+    visits pinned c d ≤ passes c.strict * size d :=
+  fun c d _ h => c11_poly_norepeat_anynames c d h
+
+/-- the hypotheses are satisfiable by a document with NESTED fragments (outside `c11_poly_partial`):
+    `{ ...A x { ...C } }  fragment A { ...B }  fragment B { b }  fragment C { c }` -/
+example :
+    let d : Doc :=
+      { ops := [{ ty := .query, name := none, vars := [], dirs := [],
+                  sels := [.spread "A" [] pos0, .field none "x" [] [] [.spread "C" [] pos0] pos0] }],
+        frags := [{ name := "A", cond := "Query", dirs := [], sels := [.spread "B" [] pos0] },
+                  { name := "B", cond := "Query", dirs := [], sels := [.field none "b" [] [] [] pos0] },
+                  { name := "C", cond := "Query", dirs := [], sels := [.field none "c" [] [] [] pos0] }] }
+    (d.frags.map (·.name)).Nodup ∧
+    ((d.ops.map fun o => spreadNames o.sels) ++ (d.frags.map fun f => spreadNames f.sels)).flatten.Nodup ∧
+    ¬ FlatFragments d := by
+  refine ⟨by decide, by decide, ?_⟩
+  intro h
+  have := h _ (List.mem_cons_self)
+  revert this
+  decide
 
 /-- the hypothesis of `c11_blowup` is satisfiable: `a`, `aa`, `aaa`, … is an injective naming -/
 example : ∀ a b : Nat, String.ofList (List.replicate (a + 1) 'a') = String.ofList (List.replicate (b + 1) 'a') → a = b := by
